@@ -144,14 +144,25 @@ def build(tier, seed):
                     fixed = [] if setname == "symmetric_over_all_wires" else w[-1:]
                     perms = [list(p) + fixed for p in itertools.permutations(movable) if list(p) != movable]
                     for pw in perms:
+                        # the permuted operator's matrix is formed by INDEPENDENT index re-embedding of the canonical
+                        # matrix (the real expand step consults this very attribute set and may short-circuit)
                         plan.add(identity_obligation(
                             base + f"/post:wires={pw}", "post", names,
-                            lambda S, mk=mk, w=w, pw=pw, P=P: mat(mk(P(S), pw), w),
+                            lambda S, mk=mk, w=w, pw=pw, P=P, nw=nw: _embed(poly_matrix(mat(mk(P(S), w), w)), pw, nw),
                             lambda S, mk=mk, w=w, P=P: mat(mk(P(S), w), w),
-                            lambda env, mk=mk, w=w, pw=pw, P=P: mat(mk(P(env), pw), w),
+                            lambda env, mk=mk, w=w, pw=pw, P=P, nw=nw: _embed_np(np.asarray(mat(mk(P(env), w), w)), pw, nw),
                             native_ref=lambda env, mk=mk, w=w, P=P: mat(mk(P(env), w), w),
                             seed=seed, func=func, size_bounded=sb or nw > 2,
-                            sample="matrix with permuted wire labels == matrix with original labels"))
+                            sample="canonical matrix re-embedded on permuted wires == canonical matrix"))
+                        # and the real wire-order expansion agrees with the independent embedding
+                        plan.add(identity_obligation(
+                            base + f"/post:expand(wires={pw})", "post", names,
+                            lambda S, mk=mk, w=w, pw=pw, P=P: mat(mk(P(S), pw), w),
+                            lambda S, mk=mk, w=w, pw=pw, P=P, nw=nw: _embed(poly_matrix(mat(mk(P(S), w), w)), pw, nw),
+                            lambda env, mk=mk, w=w, pw=pw, P=P: mat(mk(P(env), pw), w),
+                            native_ref=lambda env, mk=mk, w=w, pw=pw, P=P, nw=nw: _embed_np(np.asarray(mat(mk(P(env), w), w)), pw, nw),
+                            seed=seed, func=func, size_bounded=True,
+                            sample="real matrix of the operator on permuted wires == independent re-embedding"))
                 elif setname == "diagonal_in_z_basis":
                     plan.add(identity_obligation(
                         base + "/post:offdiag==0", "post", names,
@@ -195,12 +206,55 @@ def build(tier, seed):
                             [np.asarray(mat(mk([env[n + f"_{k}"] for n in names], w), w)) for k in (0, 1)]),
                         seed=seed, func=func, size_bounded=True, bounded=(name in BATCH_OUT_OF_REACH),
                         sample="matrix of a batch of 2 parameter sets == stack of the two per-element matrices"))
+                    if nw >= 2 and nw <= 3:
+                        # same claim with the operator's wires non-contiguous in a larger wire order (batched expansion)
+                        gw = [2 * k for k in range(nw)]
+                        go = list(range(2 * nw - 1))
+                        plan.add(identity_obligation(
+                            base + f"/post:batched==stack(wires={gw} in {len(go)})", "post", bnames,
+                            lambda S, mk=mk, gw=gw, go=go, Pb=Pb: np.asarray(mat(mk(Pb(S), gw), go), dtype=object),
+                            lambda S, mk=mk, gw=gw, go=go, names=names: np.stack(
+                                [np.asarray(mat(mk([S[n + f"_{k}"] for n in names], gw), go), dtype=object) for k in (0, 1)]),
+                            lambda env, mk=mk, gw=gw, go=go, Pb=Pb: mat(mk(Pb(env, obj=False), gw), go),
+                            native_ref=lambda env, mk=mk, gw=gw, go=go, names=names: np.stack(
+                                [np.asarray(mat(mk([env[n + f"_{k}"] for n in names], gw), go)) for k in (0, 1)]),
+                            seed=seed, func=func, size_bounded=True, bounded=(name in BATCH_OUT_OF_REACH),
+                            sample="batched matrix on non-contiguous wires == stack of per-element matrices"))
     plan.unverified = skipped + ["batch sizes other than 2", "variable-arity members beyond the enumerated sizes",
                                  "interfaces other than numpy"]
     plan.size_bounds = ["MultiRZ/Identity wires <= 3 (quick) / 4 (thorough)", "PauliRot words of length <= 2",
                         "PCPhase wires <= 2, all dim", "DiagonalQubitUnitary wires <= 2 (generic symbolic diagonal)",
                         "broadcast batch size 2"]
     return plan
+
+
+def _embed(m, pw, n):
+    """matrix of the operator placed on wires pw (pw[0] = its most significant wire) in the order 0..n-1: index arithmetic"""
+    from refs.gates import on_wires
+    from vf.symx.scalar import Sym
+    a = np.empty(m.shape, dtype=object)
+    for idx, x in np.ndenumerate(m):
+        a[idx] = Sym(x)
+    return on_wires(a, pw, n)
+
+
+def _embed_np(m, pw, n):
+    k = len(pw)
+    out = np.zeros((2 ** n, 2 ** n), dtype=complex)
+    for col in range(2 ** n):
+        bits = [(col >> (n - 1 - w)) & 1 for w in range(n)]
+        sub_in = 0
+        for w in pw:
+            sub_in = (sub_in << 1) | bits[w]
+        for sub_out in range(2 ** k):
+            nb = list(bits)
+            for pos, w in enumerate(pw):
+                nb[w] = (sub_out >> (k - 1 - pos)) & 1
+            row = 0
+            for b in nb:
+                row = (row << 1) | b
+            out[row, col] += m[sub_out, sub_in]
+    return out
 
 
 def _sq(m):
